@@ -217,3 +217,31 @@ Fixpoint rej_validate (fuel : nat) (p : program) (sc : N) (pol : N -> policy) (c
           end
       end
   end.
+
+(** ** yylineno in scanners whose actions REJECT (property C09)
+
+    Every event carries the line number the action must see: one plus the
+    newlines of everything consumed before this token plus those of the text
+    handed to this action - the text of alternatives rejected before does not
+    count (it was never consumed). *)
+Definition nl_count (u : list byte) : nat := length (filter (fun b => N.eqb b 10) u).
+
+Fixpoint rej_tokens_ln (fuel : nat) (hl : N -> nat -> nat) (altf : bool -> list byte -> list (N * nat)) (pol : N -> policy)
+         (c : counters) (bol : bool) (lines : nat) (w : list byte) : list (N * nat * nat) :=
+  match fuel with
+  | O => []
+  | S f =>
+      match w with
+      | [] => []
+      | _ =>
+          let '(ev, c', n) := walk hl pol c (altf bol w) in
+          let evl := map (fun rh : N * nat => (fst rh, snd rh, S (lines + nl_count (firstn (snd rh) w)))) ev in
+          match n with
+          | O => evl
+          | _ => evl ++ rej_tokens_ln f hl altf pol c' (bol_after bol (firstn n w)) (lines + nl_count (firstn n w)) (skipn n w)
+          end
+      end
+  end.
+
+Definition spec_rej_tokens_ln (fuel : nat) (p : program) (sc : N) (pol : N -> policy) (bol : bool) (w : list byte) :=
+  rej_tokens_ln fuel (spec_head_len p) (fun b u => salts (sobs_of (spec_start p sc b)) u) pol [] bol O w.
